@@ -199,12 +199,17 @@ type cmpStubVerifier struct {
 	ok  func() bool
 }
 
+// cmpQuiet: the stub primitives stop recording (see the C18 part of VerifH_composite_construct).
+var cmpQuiet = false
+
 type cmpErr struct{}
 
 func (cmpErr) Error() string { return "stub: invalid" }
 
 func (v *cmpStubVerifier) Verify(sig, data []byte) error {
-	*v.log = append(*v.log, cmpCall{v.tag, sig, data})
+	if !cmpQuiet {
+		*v.log = append(*v.log, cmpCall{v.tag, sig, data})
+	}
 	if v.ok() {
 		return nil
 	}
@@ -296,7 +301,9 @@ type cmpStubSigner struct {
 }
 
 func (s *cmpStubSigner) Sign(data []byte) ([]byte, error) {
-	*s.log = append(*s.log, cmpCall{s.tag, nil, data})
+	if !cmpQuiet {
+		*s.log = append(*s.log, cmpCall{s.tag, nil, data})
+	}
 	return []byte("CLSIG:" + s.tag), nil
 }
 
@@ -451,7 +458,7 @@ func VerifH_composite_construct() {
 	sig, err := sg.Sign(data)
 	verifrt.Assert(err == nil, "Sign")
 	wantM := cmpWantMPrime(row.label, data)
-	verifrt.Assert(len(mlLog) == 1 && mlLog[0].Call == "Sign:"+row.mlSet && len(clLog) == 1, "one ML-DSA and one traditional signature")
+	verifrt.Assert(len(mlLog) == 1 && mlLog[0].Call == "Sign:"+row.mlSet && len(clLog) == 1, "one hedged ML-DSA signature (Sign, which draws fresh randomness - not SignDeterministic) and one traditional signature")
 	if len(mlLog) == 1 && len(clLog) == 1 {
 		verifrt.AssertEq(mlLog[0].Arg, wantM, "ML-DSA signs M' = Prefix || Label || 0x00 || SHA-512(M)")
 		verifrt.AssertEq(mlLog[0].Arg3, []byte(row.label), "ML-DSA context = Label")
@@ -459,6 +466,23 @@ func VerifH_composite_construct() {
 	}
 	want := append(append(cmpWantPrefix(variant, id), imldsa.VerifStubSignature...), []byte("CLSIG:"+kind)...)
 	verifrt.AssertEq(sig, want, "signature = output prefix || ML-DSA signature || traditional signature")
+
+	// ---- C18 (sufficient condition): with everything allocated so far read-only, further
+	// Sign / Verify calls on the same signer / verifier (other data in between) write to nothing
+	// that existed before and give the same results
+	cmpQuiet, imldsa.VerifDispatchQuiet = true, true
+	data2 := verifrt.Bytes("data2", 1+verifrt.Choice("dl2", 2))
+	verifrt.FreezeAll("state shared between concurrent calls (everything allocated before the calls: composite signer / verifier)")
+	sig2, err := sg.Sign(data2)
+	verifrt.Assert(err == nil, "second Sign")
+	sigAgain, err := sg.Sign(data)
+	verifrt.Assert(err == nil, "third Sign")
+	verifrt.AssertEq(sigAgain, sig, "a call in between does not change the result")
+	verifrt.Assert(!verifrt.SameArray(sig2, sigAgain), "signatures do not share memory")
+	v1 := vf.Verify(sig, data) == nil
+	_ = vf.Verify(sig2, data2)
+	v1b := vf.Verify(sig, data) == nil
+	verifrt.Assert(v1 == v1b, "the shared verifier's verdict does not depend on a call in between")
 	verifrt.Reach("end")
 }
 
